@@ -272,6 +272,14 @@ def eq(ctx: Ctx, a, b):
         return False
     if a is b and isinstance(a, (SymMsg, SymOpaque, SObj, PList, PDict, SymSeq, SymStr, SymInt, SymBool, SymBytes)):
         return True
+    for x, y, flip in ((a, b, False), (b, a, True)):
+        tn = type(x).__name__
+        if tn == "SymIte":
+            return z3.If(x.c, _z(eq(ctx, x.a, y)), _z(eq(ctx, x.b, y)))
+        if tn == "SymGiven":
+            from .models_cli import wrap_default
+
+            return z3.If(x.given, _z(eq(ctx, x.value, y)), _z(eq(ctx, wrap_default(x.default), y)))
     if not is_sym(a) and not is_sym(b) and not isinstance(a, (SObj, PList, PDict)) and not isinstance(
         b, (SObj, PList, PDict)
     ):
@@ -300,6 +308,12 @@ def eq(ctx: Ctx, a, b):
         if isinstance(b, SymAny) and not isinstance(a, SymAny):
             a, b = b, a
         return any_eq(ctx, a, b)
+    if isinstance(a, SymReal) or isinstance(b, SymReal):
+        ea = a.e if isinstance(a, SymReal) else (z3.ToReal(z3_of_int(a)) if isinstance(a, (int, SymInt)) and not isinstance(a, bool) else (z3.RealVal(a) if isinstance(a, float) else None))
+        eb = b.e if isinstance(b, SymReal) else (z3.ToReal(z3_of_int(b)) if isinstance(b, (int, SymInt)) and not isinstance(b, bool) else (z3.RealVal(b) if isinstance(b, float) else None))
+        if ea is None or eb is None:
+            return False
+        return ea == eb
     if isinstance(a, (SymBool, bool)) and isinstance(b, (SymBool, bool)):
         return z3_of_bool(a) == z3_of_bool(b)
     if isinstance(a, (SymInt, int, SymBool, float)) and isinstance(b, (SymInt, int, SymBool, float)):
@@ -339,6 +353,12 @@ def eq(ctx: Ctx, a, b):
         return False
     if isinstance(a, SymOpaque) and isinstance(b, SymOpaque):
         return a.e == b.e
+    for x, y in ((a, b), (b, a)):
+        if isinstance(x, SymOpaque) and (kind_of_strlike(y) or isinstance(y, (int, bool, SymInt, SymBool, float))):
+            # a value of unknown kind against a string / number: an uninterpreted relation
+            if kind_of_strlike(y):
+                return z3.Function("opq_eq_str", Opaque, Str, z3.BoolSort())(x.e, str_to_z3(y))
+            return z3.Function("opq_eq_int", Opaque, Int, z3.BoolSort())(x.e, z3_of_int(y))
     if isinstance(a, SObj) and isinstance(b, SObj):
         if a is b:
             return True
@@ -370,6 +390,10 @@ def eq(ctx: Ctx, a, b):
         if set(a.items) != set(b.items):
             return False
         return _and([eq(ctx, a.items[k], b.items[k]) for k in a.items])
+    if (a is None) != (b is None):
+        return False
+    if type(a) is object or type(b) is object:
+        return a is b  # a bare sentinel object equals only itself
     if type(a) is not type(b) and not (is_sym(a) and is_sym(b)):
         # different python kinds (e.g. str vs int, SObj vs str)
         simple = (int, float, str, bytes, tuple, bool)
@@ -500,6 +524,12 @@ def identical(ctx: Ctx, a, b):
     """`is`: identity for None / enum members / sentinels / objects"""
     if a is b:
         return True
+    for x, y in ((a, b), (b, a)):
+        if type(x).__name__ == "SymGiven":
+            # an option compared with its default object (the `sentinel`): not given
+            if y is x.default:
+                return z3.Not(x.given)
+            return False
     if type(a).__name__ == "SymMsg" or type(b).__name__ == "SymMsg":
         return False
     if isinstance(a, SymOpt) or isinstance(b, SymOpt):
